@@ -100,6 +100,7 @@ class Explorer:
                 self.solver_seconds += ob.seconds
 
 
+FM_BOUNDS = (2, 4, 16)
 _QCACHE: dict = {}
 _BG = []
 
@@ -143,6 +144,67 @@ def _mk_solver(rlimit):
     return s
 
 
+def _ps_terms(exprs):
+    """Ground applications prefix_sum(A, n) occurring in the formulas (those under a binder are skipped)."""
+    from .values import PS
+    found = {}
+    seen = set()
+
+    def has_var(x, memo={}):
+        i = x.get_id()
+        if i in memo:
+            return memo[i]
+        r = z3.is_var(x) or (z3.is_quantifier(x)) or any(has_var(c) for c in x.children())
+        memo[i] = r
+        return r
+
+    stack = list(exprs)
+    while stack:
+        x = stack.pop()
+        i = x.get_id()
+        if i in seen:
+            continue
+        seen.add(i)
+        if z3.is_quantifier(x):
+            stack.append(x.body())
+            continue
+        if z3.is_app(x):
+            if x.decl().eq(PS) and not has_var(x.arg(1)) and not _has_free_var(x.arg(0)):
+                found[i] = x
+            stack.extend(x.children())
+    return list(found.values())
+
+
+def _has_free_var(x):
+    """de Bruijn variables that escape x (x itself may be a closed lambda)."""
+    def go(e, depth):
+        if z3.is_var(e):
+            return z3.get_var_index(e) >= depth
+        if z3.is_quantifier(e):
+            return go(e.body(), depth + e.num_vars())
+        return any(go(c, depth) for c in e.children())
+    return go(x, 0)
+
+
+def ps_congruence_instances(exprs):
+    """Lemma PS-CONGRUENCE (proved by induction in contracts/C16_secsi.LemmaPrefixSumCongruence), instantiated for every
+    pair of prefix sums in the query: arrays that agree below n have the same prefix sum at n."""
+    terms = _ps_terms(exprs)
+    out = []
+    if len(terms) < 2 or len(terms) > 12:
+        return out
+    t = z3.Int("psc!t")
+    for a in range(len(terms)):
+        for b in range(a + 1, len(terms)):
+            A, n = terms[a].arg(0), terms[a].arg(1)
+            B, m = terms[b].arg(0), terms[b].arg(1)
+            if A.eq(B):
+                continue
+            agree = z3.ForAll([t], z3.Implies(z3.And(t >= 0, t < n), z3.Select(A, t) == z3.Select(B, t)))
+            out.append(z3.Implies(z3.And(n == m, agree), terms[a] == terms[b]))
+    return out
+
+
 def solve_obligation(ob: Obligation, rlimit, model_vars):
     t0 = time.time()
     goal = ob.goal
@@ -160,6 +222,8 @@ def solve_obligation(ob: Obligation, rlimit, model_vars):
         for h in BACKGROUND():
             s.add(h)
         for h in ob.hyps:
+            s.add(h)
+        for h in ps_congruence_instances(list(ob.hyps) + [goal]):
             s.add(h)
         s.add(z3.Not(goal))
         try:
@@ -181,7 +245,7 @@ def solve_obligation(ob: Obligation, rlimit, model_vars):
             break
         ob.reason = f"z3 unknown: {s.reason_unknown()}"
     if verdict == "undecided" and ob.kind != "canary":
-        for bound in (2, 4):
+        for bound in FM_BOUNDS:
             try:
                 m = finite_model_search(ob, bound, model_vars)
             except Exception as exc:  # pragma: no cover
@@ -219,7 +283,13 @@ def _expand_quantifiers(e, bound, cache):
         if key in cache:
             return cache[key][0]
         kids = [_expand_quantifiers(c, bound, cache) for c in e.children()]
-        r = e.decl()(*kids) if kids else e
+        from .values import PS
+        if e.decl().eq(PS):
+            # within the bound the prefix sum is an explicit finite sum (exact, no uninterpreted function over arrays)
+            A, n = kids
+            r = z3.Sum([z3.If(z3.IntVal(t) < n, z3.Select(A, z3.IntVal(t)), z3.IntVal(0)) for t in range(bound + 2)])
+        else:
+            r = e.decl()(*kids) if kids else e
         cache[key] = (r, e)
         return r
     if z3.is_quantifier(e) and e.is_lambda():
@@ -240,7 +310,7 @@ def finite_model_search(ob, bound, model_vars):
     cache = {}
     for sub in nnf:
         for f in sub:
-            s.add(_expand_quantifiers(f, bound, cache))
+            s.add(z3.simplify(_expand_quantifiers(f, bound, cache)))
     for name, desc in model_vars.items():
         if desc["kind"] == "seq":
             s.add(desc["length"] <= bound)
@@ -261,7 +331,10 @@ def finite_model_search(ob, bound, model_vars):
     for h in ob.hyps:
         consts(h)
     consts(ob.goal)
-    if s.check() == z3.sat:
+    r = s.check()
+    if os.environ.get("VERIF_DEBUG"):
+        print(f"   [finite-model] {ob.name} bound={bound} -> {r} {s.reason_unknown() if r == z3.unknown else ''}", flush=True)
+    if r == z3.sat:
         return extract_model(s.model(), model_vars)
     return None
 
